@@ -8,6 +8,8 @@ import ReqVerif.Model.SourceWalk
 import ReqVerif.Model.RequiresPython
 import ReqVerif.Model.Filename
 import ReqVerif.Model.Metadata
+import ReqVerif.Model.ReqFile
+import ReqVerif.Model.Frontends
 /-!
 rvdriver: line protocol between the Python harness and the executable models.
 One JSON object per input line (`{"op": ..., ...}`), one JSON value per output line.
@@ -229,6 +231,23 @@ def opMetadata (j : Json) : Json :=
       ("version", match a.version with | some v => Json.str (str v) | none => Json.null),
       ("reqs", jsonStrs (a.reqs.map str))]
 
+/-! ### requirements-file reader (C16) -/
+
+def opReqFile (j : Json) : Json :=
+  let files : List (List Char × List (List Char)) := (jArr j "files").map fun f => (jChars f "path", (jStrs f "lines").map String.toList)
+  let fs : List Char → Option (List (List Char)) := fun p => (files.find? (·.1 = p)).map (·.2)
+  match RF.readFile fs (jNat j "fuel") (jChars j "root") with
+  | .ok out => Json.mkObj [("reqs", jsonStrs (out.reqs.map str)), ("params", jsonStrs (out.params.map str))]
+  | .error e => Json.mkObj [("error", Json.str (match e with
+      | .backslash => "ValueError" | .index => "IndexError" | .noFile => "FileNotFoundError" | .fuel => "fuel"))]
+
+def showLocs (l : FE.Locs) : Json :=
+  Json.mkObj [("index", jsonStrs (l.index.map str)), ("extra", jsonStrs (l.extra.map str)), ("find", jsonStrs (l.find.map str))]
+
+def opFrontends (j : Json) : Json :=
+  Json.mkObj [("bazel", showLocs (FE.bazelScan ((jStrs j "lines").map String.toList))),
+              ("cli", showLocs (FE.cliScan ((jStrs j "params").map String.toList) {}))]
+
 def dispatch (op : String) (j : Json) : Json :=
   match op with
   | "merge" => opMerge j
@@ -240,6 +259,8 @@ def dispatch (op : String) (j : Json) : Json :=
   | "history" => opHistory j
   | "walk" => opWalk j
   | "metadata" => opMetadata j
+  | "reqfile" => opReqFile j
+  | "frontends" => opFrontends j
   | "requires-python" => opRequiresPython j
   | "wheel-name" => opWheelName j
   | "compile" => opCompile j
